@@ -167,17 +167,7 @@ func runC21(c *core.Ctx) {
 				}
 				found++
 				c.Sites++
-				used := false
-				for _, ev := range an.ErrResult(call) {
-					if refs := ev.Referrers(); refs != nil {
-						for _, r := range *refs {
-							if _, isDbg := r.(*ssa.DebugRef); !isDbg {
-								used = true
-							}
-						}
-					}
-				}
-				if !used {
+				if !errReachesReturn(call) {
 					c.Bad("C21.c", "ERR", core.FuncName(f)+":"+id+":error-dropped", c.P.Pos(call.Pos()),
 						"the error of "+id+" is dropped in "+core.FuncName(f)+": a backup that was not produced or transferred completely can be reported as successful", nil)
 				}
